@@ -25,7 +25,11 @@ GENERIC = (
     "wrong for one number of fractional digits; assert! turned into debug_assert! (release-profile-only behaviour); a second, "
     "stale copy of the asset decimals or of the LP supply kept in the pair's storage; internal router messages accepted when "
     "'prepaid'; dust top-ups of very deep pools; wrong ordering of values above 2^128; a hook naming less than the amount sent; "
-    "0 used as a 'not registered' sentinel"
+    "0 used as a 'not registered' sentinel; page limits (30) applied to a listing other than the pairs; a counterfeit token "
+    "whose minter is the pair; callers whose address the codec cannot canonicalise; a nested Receive envelope as hook payload; "
+    "the spread handed to the guard clamped; simulation refusing near the reserve-product cap; limb-wise Display with early exit; "
+    "a from_ratio shortcut judged on leading bits; whitelists hundreds of addresses long; a solvency check in front of withdrawals; "
+    "unrelated coins held by the router; a withdraw hook relayed by a pool asset token; TransferFrom-based direct cw20 swaps"
 )
 
 
